@@ -36,7 +36,7 @@ def sh(cmd, timeout, cwd=None):
         return 124, "TIMEOUT after %ss: %s" % (timeout, cmd)
 
 
-def build(prop):
+def build(prop, models=None):
     """regenerate Generated/*.v from /repo, run make; returns (ok, log, failing_file)"""
     lock = open(os.path.join(WORK, ".build.lock"), "w")
     fcntl.flock(lock, fcntl.LOCK_EX)
@@ -44,11 +44,26 @@ def build(prop):
         tr_ok, tr_log = translate.run()
         if not tr_ok:
             return False, "translator refused: " + tr_log, "harness/translate.py"
+        refused = [f for f in translate.FAILED if prop in f[1]]
+        if refused:
+            return False, "translator refused: " + "; ".join("%s: %s" % (f[0], f[2]) for f in refused), "harness/translate.py"
         if not os.path.exists(os.path.join(COQ, "Makefile")):
             rc, out = sh(["coq_makefile", "-f", "_CoqProject", "-o", "Makefile"], 120, cwd=COQ)
             if rc != 0:
                 return False, out, "_CoqProject"
-        rc, out = sh(["make", "-j16"], 3000, cwd=COQ)
+        # only this property's theorem files (with their dependencies) and the executable model:
+        # a broken proof of another property must not raise an alarm here
+        targets = [os.path.relpath(f, COQ) + "o" for f in sorted(glob.glob(os.path.join(COQ, "Props", prop + "*.v")))]
+        targets += ["Float/Run.vo", "Float/Fops.vo"]
+        if models is None:
+            for d in ("Model", "Generated"):
+                targets += [os.path.relpath(f, COQ) + "o" for f in sorted(glob.glob(os.path.join(COQ, d, "*.v")))]
+        else:
+            for m in models:
+                for d in ("Model", "Generated"):
+                    if os.path.exists(os.path.join(COQ, d, m + ".v")):
+                        targets.append("%s/%s.vo" % (d, m))
+        rc, out = sh(["make", "-j16"] + targets, 3000, cwd=COQ)
         if rc != 0:
             m = re.findall(r'File "\./([^"]+)", line (\d+)', out)
             return False, out[-3000:], (m[-1][0] if m else "?")
@@ -135,7 +150,7 @@ def main():
 
     broken = []         # obligations that no longer check: (kind, name, detail)
     # ---- 1. translator + build
-    ok, log, failing = build(prop)
+    ok, log, failing = build(prop, getattr(pm, "MODELS", None))
     th_names, assumptions, th_problems = [], {}, []
     if not ok:
         broken.append(("proof-build", failing, log))
